@@ -23,6 +23,9 @@ func (identification *IdentificationInitiator) Marshal() ([]byte, error) {
 }
 
 func (identification *IdentificationInitiator) Unmarshal(b []byte) error {
+	if len(b) == 0 {
+		return errors.Errorf("Identification: Empty payload body")
+	}
 	if len(b) > 0 {
 		// bounds checking
 		if len(b) <= 4 {
